@@ -9,7 +9,7 @@ from cloudsync.types import DIRECTORY, FILE, IgnoreReason
 import cloudsync.exceptions as ex
 
 
-@lemma(props=["C03", "C07", "C02"], configs="sides", raises=["Exception"])
+@lemma(props=["C03", "C07", "C02", "C04"], configs="sides", raises=["Exception"])
 def create_synced_records_both_sides(w: World, translated_path: str):
     """L3.3 / L7.4: creating the peer of a new file writes only to the other side and only by `create` at the translated
     path, at most once; when an object is already there (CloudFileExistsError) it is adopted only if its content hash
@@ -54,7 +54,7 @@ def create_synced_records_both_sides(w: World, translated_path: str):
     check(truthy(own_hash), "a file without a hash is never created on the other side")
 
 
-@lemma(props=["C03", "C10", "C02", "C05"], configs="sides", raises=["Exception"],
+@lemma(props=["C03", "C10", "C02", "C05", "C04"], configs="sides", raises=["Exception"],
        stubs={"cloudsync.sync.manager:SyncManager._create_synced": {"results": ["None"], "havoc": True},
               "cloudsync.sync.manager:SyncManager.handle_cloud_file_not_found_error": {"results": ["PUNT"], "havoc": True}})
 def create_synced_fault_table(w: World, translated_path: str):
@@ -77,7 +77,7 @@ def create_synced_fault_table(w: World, translated_path: str):
         check(r == FINISHED and sync.is_irrelevant, "a bad name is reported only when the entry is frozen as irrelevant and finished")
 
 
-@lemma(props=["C03", "C04"], configs="sides", raises=["Exception"],
+@lemma(props=["C03", "C04", "C02"], configs="sides", raises=["Exception"],
        stubs={"cloudsync.sync.manager:SyncManager.handle_cloud_file_not_found_error": {"results": ["PUNT"], "havoc": True},
               "cloudsync.sync.manager:SyncManager.rename_to_fix_conflict": {"results": ["True", "False"], "havoc": True}})
 def handle_rename_effects(w: World, translated_path: str):
@@ -129,7 +129,7 @@ def handle_rename_effects(w: World, translated_path: str):
             check(found, "what was removed belongs to another entry, tombstoned at once, whose other side had nothing pending")
 
 
-@lemma(props=["C03", "C04"], configs="sides", raises=["Exception"],
+@lemma(props=["C03", "C04", "C02"], configs="sides", raises=["Exception"],
        stubs={"cloudsync.sync.manager:SyncManager.resolve_conflict": {"results": ["None"], "havoc": True},
               # contract proved by folder_file_conflict_contract below: no write, drops nothing
               "cloudsync.sync.manager:SyncManager.get_folder_file_conflict": {"results": ["None", "entry"], "havoc": False}})
@@ -164,7 +164,7 @@ def mkdir_synced_effects(w: World, translated_path: str):
         check(sync.ignored == ign0, "the entry itself is never dropped")
 
 
-@lemma(props=["C03", "C04"], configs="sides", raises=["Exception"])
+@lemma(props=["C03", "C04", "C02"], configs="sides", raises=["Exception"])
 def folder_file_conflict_contract(w: World, translated_path: str):
     """contract of get_folder_file_conflict used by mkdir_synced_effects: it never writes to a provider, only asks the
     other side about ids, drops no entry, and what it returns is another entry that holds a live non-folder there"""
@@ -271,7 +271,7 @@ def path_change_or_creation_dispatch(w: World):
         check(not sync.is_creation(changed) and not sync[changed].is_corrupt, "only for an entry that is neither a creation nor corrupt")
 
 
-@lemma(props=["C02", "C03", "C07"], configs="sides", raises=["Exception"])
+@lemma(props=["C02", "C03", "C07", "C04"], configs="sides", raises=["Exception"])
 def download_changed_reads_the_entrys_own_object(w: World):
     """L2.8: fetching the changed content never writes to a provider; the only provider call is at most one `download`
     of the entry's own object on the changed side; True is returned only with a temp file recorded (downloaded to a
@@ -327,7 +327,7 @@ def revivify_only_when_the_path_became_relevant(w: World):
         check(sync.ignored == ign0, "an entry that is not irrelevant keeps its status")
 
 
-@lemma(props=["C02", "C04"], configs="sides")
+@lemma(props=["C02", "C04", "C03"], configs="sides")
 def changed_side_missing_never_touches_the_survivor(w: World):
     """L2.9: when the changed side turns out to be missing (not deleted by a user -- just gone), nothing is asked of any
     provider: the surviving copy on the other side is never deleted; after being deferred more than four times the
@@ -354,7 +354,7 @@ def changed_side_missing_never_touches_the_survivor(w: World):
         check(r == FINISHED, "nothing on either side: finished")
 
 
-@lemma(props=["C02", "C03"], configs="sides", raises=["Exception"],
+@lemma(props=["C02", "C03", "C04"], configs="sides", raises=["Exception"],
        stubs={"cloudsync.sync.manager:SyncManager.download_changed": {"results": ["True", "False"], "havoc": False},
               "cloudsync.sync.manager:SyncManager.upload_synced": {"results": ["True", "False"], "havoc": False},
               "cloudsync.sync.manager:SyncManager.handle_corrupt": {"results": ["FINISHED"], "havoc": False}})
@@ -386,7 +386,7 @@ def hash_diff_downloads_then_uploads(w: World):
         check(len(up) == 1 and up[0].result is True, "finished only after a successful upload")
 
 
-@lemma(props=["C05", "C11"], configs="sides", raises=["Exception"],
+@lemma(props=["C05", "C11", "C02"], configs="sides", raises=["Exception"],
        stubs={"cloudsync.sync.manager:SyncManager.conflict_rename": {"results": ["triple"], "havoc": False}})
 def rename_to_fix_conflict_follows_the_moved_object(w: World, path: str):
     """L5.5: after a conflict rename the state follows the object that was moved: the new id is recorded on the entry that
@@ -413,7 +413,7 @@ def rename_to_fix_conflict_follows_the_moved_object(w: World, path: str):
         check(sync.ignored == ign0, "an ordinary conflict rename never sets the entry aside")
 
 
-@lemma(props=["C03", "C10"], configs="sides", raises=["NotImplementedError", "Exception"],
+@lemma(props=["C03", "C10", "C02", "C04"], configs="sides", raises=["NotImplementedError", "Exception"],
        stubs={"cloudsync.sync.manager:SyncManager.unsafe_mkdir_synced": {"results": ["FINISHED", "PUNT"], "havoc": False},
               "cloudsync.sync.manager:SyncManager.rename_to_fix_conflict": {"results": ["True", "False"], "havoc": False},
               "cloudsync.sync.manager:SyncManager.handle_file_name_error": {"results": ["None"], "raises": False, "havoc": False}})
